@@ -5,6 +5,10 @@
 #include <api/GlobalStop.h>
 #include <api/MainSolver.h>
 #include <logics/ArithLogic.h>
+#include <smtsolvers/SimpSMTSolver.h>
+#include <tsolvers/THandler.h>
+#include <condition_variable>
+#include <mutex>
 #include <rapidcheck.h>
 #include <atomic>
 #include <chrono>
@@ -16,13 +20,40 @@ using namespace opensmt;
 static Stats stats;
 static std::string failure;
 
+// Stop requests at a chosen point of the search (the harness owns the schedule): the K-th time the search reports a
+// consistent point (CoreSMTSolver::notifyConsistency, the hook the parallel splitter uses) it waits until the stopper
+// thread has issued its request.
+struct Handshake {
+    std::mutex mtx;
+    std::condition_variable cv;
+    bool reached = false, issued = false, atPoint = false;
+};
+class HandshakeSolver : public SimpSMTSolver {
+public:
+    HandshakeSolver(SMTConfig & c, THandler & t, int k, Handshake & h) : SimpSMTSolver(c, t), remaining(k), hs(h) {}
+protected:
+    ConsistencyAction notifyConsistency() override {
+        if (remaining > 0 and --remaining == 0) {
+            std::unique_lock<std::mutex> lock(hs.mtx);
+            hs.reached = true;
+            hs.atPoint = true;
+            hs.cv.notify_all();
+            hs.cv.wait(lock, [this] { return hs.issued; });
+        }
+        return ConsistencyAction::NoOp;
+    }
+private:
+    int remaining;
+    Handshake & hs;
+};
+
 struct Problem { uint32_t seed; int kind; };   // kind 0 LRA, 1 LIA, 2 UF, 3 UFLRA ; bit 4: big coefficients
 
 static const char * BIG[] = {"4294967297", "9007199254740993", "18446744073709551617", "340282366920938463463374607431768211507"};
 
 // Builds and solves one instance; everything (logic, config, solver) is local to the call.
 static int solveOne(Problem p, std::atomic<bool> * started = nullptr, std::atomic<MainSolver *> * expose = nullptr, std::atomic<int> * phase = nullptr,
-                    std::atomic<bool> * release = nullptr, std::string * digest = nullptr) {
+                    std::atomic<bool> * release = nullptr, std::string * digest = nullptr, int handshakeK = 0, Handshake * hs = nullptr) {
     std::mt19937 rng(p.seed);
     auto below = [&](uint32_t n) { return (uint32_t)(rng() % n); };
     int kind = p.kind & 3;
@@ -31,7 +62,17 @@ static int solveOne(Problem p, std::atomic<bool> * started = nullptr, std::atomi
     Logic_t lt = kind == 0 ? Logic_t::QF_LRA : kind == 1 ? Logic_t::QF_LIA : kind == 2 ? Logic_t::QF_UF : Logic_t::QF_UFLRA;
     std::unique_ptr<Logic> logicPtr(kind == 2 ? new Logic(lt) : new ArithLogic(lt));
     Logic & logic = *logicPtr;
-    MainSolver solver(logic, config, "harness");
+    std::unique_ptr<MainSolver> solverPtr;
+    if (hs) {
+        auto th = MainSolver::createTheory(logic, config);
+        auto tm = std::make_unique<TermMapper>(logic);
+        auto thandler = std::make_unique<THandler>(*th, *tm);
+        auto inner = std::make_unique<HandshakeSolver>(config, *thandler, handshakeK, *hs);
+        solverPtr.reset(new MainSolver(std::move(th), std::move(tm), std::move(thandler), std::move(inner), logic, config, "harness"));
+    } else {
+        solverPtr.reset(new MainSolver(logic, config, "harness"));
+    }
+    MainSolver & solver = *solverPtr;
     if (expose) expose->store(&solver);
     if (kind == 2) {
         SRef u = logic.declareUninterpretedSort("U");
@@ -94,6 +135,11 @@ static int solveOne(Problem p, std::atomic<bool> * started = nullptr, std::atomi
     if (started) started->store(true);
     if (phase) phase->store(1);
     sstat r = solver.check();
+    if (hs) {
+        // the search ended before its K-th consistent point: release the stopper (its request then comes after the answer)
+        std::lock_guard<std::mutex> lock(hs->mtx);
+        if (!hs->reached) { hs->reached = true; hs->cv.notify_all(); }
+    }
     if (phase) phase->store(2);
     if (release) { while (!release->load()) std::this_thread::yield(); }   // keep the solver object alive for the stopper
     if (expose) { expose->store(nullptr); }
@@ -203,6 +249,51 @@ static bool runStop(StopCase const & c, bool count) {
     return true;
 }
 
+struct StopKCase { Problem prob; int k; bool global; };
+static std::string show(StopKCase const & c) {
+    std::ostringstream o;
+    o << "stopk " << c.prob.seed << " " << c.prob.kind << " " << c.k << " " << (c.global ? 1 : 0) << "\n";
+    return o.str();
+}
+// the stop request is issued while the search waits at its K-th consistent point
+static bool runStopK(StopKCase const & c, bool count) {
+    resetGlobalStop();
+    int solo = solveOne(c.prob);
+    Handshake hs;
+    std::atomic<MainSolver *> solverPtr{nullptr};
+    std::atomic<bool> stopperDone{false};
+    int res = -1;
+    std::thread stopper([&]() {
+        std::unique_lock<std::mutex> lock(hs.mtx);
+        hs.cv.wait(lock, [&] { return hs.reached; });
+        MainSolver * ms = solverPtr.load();
+        if (c.global || !ms) notifyGlobalStop(); else ms->notifyStop();
+        hs.issued = true;
+        hs.cv.notify_all();
+        stopperDone.store(true);
+    });
+    std::thread solverThread([&]() {
+        res = solveOne(c.prob, nullptr, &solverPtr, nullptr, &stopperDone, nullptr, c.k, &hs);
+    });
+    solverThread.join();
+    stopper.join();
+    resetGlobalStop();
+    bool landed = hs.atPoint;
+    if (count) {
+        stats.evaluations++;
+        stats.classes[landed ? "landed:at-consistent-point" : "landed:after-answer"]++;
+        stats.classes[std::string("result:") + (res == 2 ? "unknown" : "definitive")]++;
+        if (landed) { stats.nontrivial++; if (stats.samples.size() < 3) stats.sample(show(c)); }
+    }
+    if (res != 2 && res != solo) {
+        std::ostringstream o;
+        o << "stop request at consistent point " << c.k << " gave the wrong definitive answer " << res << " (alone: " << solo << ")";
+        failure = o.str();
+        return false;
+    }
+    return true;
+}
+
 int main(int argc, char ** argv) {
     std::string mode = argc > 1 ? argv[1] : "threads";
     const char * statsPath = std::getenv("H_STATS");
@@ -215,6 +306,9 @@ int main(int argc, char ** argv) {
             size_t n; in >> n; ThreadCase c;
             for (size_t i = 0; i < n; ++i) { Problem p; int sp; in >> p.seed >> p.kind >> sp; c.probs.push_back(p); c.spins.push_back(sp); }
             for (int rep = 0; rep < 5 && ok; ++rep) ok = runThreads(c, true);
+        } else if (m == "stopk") {
+            StopKCase c; int g; in >> c.prob.seed >> c.prob.kind >> c.k >> g; c.global = g;
+            for (int rep = 0; rep < 3 && ok; ++rep) ok = runStopK(c, true);
         } else {
             StopCase c; int g; in >> c.prob.seed >> c.prob.kind >> c.delayUs >> g; c.global = g;
             for (int rep = 0; rep < 5 && ok; ++rep) ok = runStop(c, true);
@@ -235,6 +329,13 @@ int main(int argc, char ** argv) {
                 c.spins.push_back(*rc::gen::resize(100, rc::gen::inRange(0, 200000)));
             }
             if (!runThreads(c, true)) { writeFile(failPath, show(c)); RC_FAIL(failure); }
+        });
+    } else if (mode == "stopk") {
+        ok = rc::check("a stop request at a chosen consistent point never produces a wrong answer", [&]() {
+            static const int KINDS[] = {1, 1, 1, 5, 0, 3, 2, 4};   // integer arithmetic first: its complete check does the most work
+            StopKCase c{{*rc::gen::resize(100, rc::gen::inRange<uint32_t>(1, 1000000)), KINDS[*rc::gen::resize(100, rc::gen::inRange(0, 8))]},
+                        *rc::gen::resize(100, rc::gen::inRange(1, 9)), *rc::gen::resize(100, rc::gen::inRange(0, 2)) == 0};
+            if (!runStopK(c, true)) { writeFile(failPath, show(c)); RC_FAIL(failure); }
         });
     } else {
         ok = rc::check("a stop request never produces a wrong answer", [&]() {
